@@ -84,6 +84,10 @@ type replRes struct {
 	Vk  string `json:"vk"`
 }
 
+type relevelRes struct {
+	Enabled bool `json:"enabled"`
+}
+
 type constRes struct {
 	I int    `json:"i"`
 	S string `json:"s"`
@@ -693,6 +697,12 @@ var stdFlagTable = map[string]int{"log.Ldate": stdlog.Ldate, "log.Ltime": stdlog
 // of the specification's, the predicted answer decoded into the same type,
 // and (for New) a byte-level disagreement with the std reference handler.
 func (w *cfgWorld) answer(item []json.RawMessage, want json.RawMessage) (got, pred any, refDiff string, err error) {
+	// A panic of the code under test is an answer, not a harness failure.
+	defer func() {
+		if pv := recover(); pv != nil {
+			got, refDiff, err = map[string]any{"panic": fmt.Sprint(pv)}, "", nil
+		}
+	}()
 	var typ string
 	if len(item) == 0 || json.Unmarshal(item[0], &typ) != nil {
 		return nil, nil, "", fmt.Errorf("bad item")
@@ -754,6 +764,41 @@ func (w *cfgWorld) answer(item []json.RawMessage, want json.RawMessage) (got, pr
 			err = json.Unmarshal(want, &p)
 		}
 		return runReplace(typ, g, k, vk), p, "", err
+	case "relevel":
+		var f string
+		var v0, v1, l int
+		arg(1, &f)
+		arg(2, &v0)
+		arg(3, &v1)
+		arg(4, &l)
+		var p relevelRes
+		if want != nil && err == nil {
+			err = json.Unmarshal(want, &p)
+		}
+		if err != nil {
+			return
+		}
+		if err = w.reset(); err != nil {
+			return
+		}
+		aglog.SetOutput(&w.logbuf)
+		lvar := &slog.LevelVar{}
+		lvar.Set(slog.Level(v0))
+		lg := slogutil.New(&slogutil.Config{Format: slogutil.Format(f), Level: lvar, Output: &w.buf})
+		stdlog.SetOutput(io.Discard)
+		lvar.Set(slog.Level(v1))
+		return relevelRes{Enabled: lg.Enabled(context.Background(), slog.Level(l))}, p, "", nil
+	case "flags":
+		var n int
+		arg(1, &n)
+		var p constRes
+		if want != nil && err == nil {
+			err = json.Unmarshal(want, &p)
+		}
+		aglog.SetFlags(n)
+		got := constRes{I: stdlog.Flags()}
+		aglog.SetFlags(0)
+		return got, p, "", err
 	case "const":
 		var n string
 		arg(1, &n)
@@ -906,6 +951,10 @@ func recordConfig(args []string) error {
 				s = mutate(s)
 			}
 			item = []any{"format", s}
+		case k == 8 && rng.IntN(4) == 0:
+			item = []any{"flags", rng.IntN(128)}
+		case k == 8 && rng.IntN(2) == 0:
+			item = []any{"relevel", valid[rng.IntN(len(valid))], level(), level(), level()}
 		case k == 8:
 			item = []any{"verbosity", rng.IntN(256)}
 		default:
